@@ -38,6 +38,7 @@ def make_config(seed, tier):
         "autocreate": "defaults",
         "listing": True,
         "steps": r.randint(15, 30) if tier == "quick" else r.randint(25, 70),
+        "oracle4": tier == "thorough" or r.random() < 0.3,
     }
 
 
@@ -108,7 +109,7 @@ class PathRun:
         try:
             h = hashlib.sha1()
             for name in sorted(os.listdir(self.arena.path)):
-                if name in ("root", "tmp"):
+                if name in ("root", "tmp", "pre4", "twin4"):
                     continue
                 p = os.path.join(self.arena.path, name)
                 h.update(name.encode() + b"\0" + (dir_digest(p) if os.path.isdir(p) else "file").encode())
@@ -125,10 +126,10 @@ class PathRun:
             # ordinary traffic so that state exists
             self.fresh += 1
             name = r.choice(["a.ics", "b.ics", "n%d.ics" % self.fresh])
-            return {"op": "req", "method": "PUT", "path": "/user/calendars/calendar/" + name, "ctype": "text/calendar", "body": gen.ics(r, "uid-" + name).decode("latin-1"), "benign": True}
+            return {"op": "req", "method": "PUT", "path": "/user/calendars/calendar/" + name, "ctype": "text/calendar", "body": gen.ics(r, "uid-" + name).decode("latin-1"), "benign": True, "salt": r.getrandbits(32)}
         method = r.choice(["GET", "HEAD", "PUT", "PUT", "POST", "DELETE", "DELETE", "MKCOL", "MKCOL", "MKCALENDAR", "MKCALENDAR", "PROPFIND", "PROPFIND", "PROPPATCH", "REPORT", "REPORT", "OPTIONS"])
         path = evil_path(r, self.cfg["prefix"])
-        op = {"op": "req", "method": method, "path": path}
+        op = {"op": "req", "method": method, "path": path, "salt": r.getrandbits(32)}
         if method in ("PUT", "POST"):
             op["ctype"] = r.choice(["text/calendar", "text/calendar", "application/octet-stream"])
             op["body"] = gen.ics(r, "evil-uid").decode("latin-1")
@@ -208,6 +209,7 @@ class PathRun:
     def step(self, op):
         self.ops.append(op)
         w = self.world
+        w.reseed(op.get("salt", 0))
         method = op["method"]
         self.count("method." + method)
         target = self.cfg["prefix"].rstrip("/") + op["path"]
@@ -217,6 +219,19 @@ class PathRun:
         if op.get("depth"):
             hdrs.append(("Depth", op["depth"]))
         body = op.get("body", "").encode("latin-1")
+        check4 = (not op.get("benign")) and method in ("PUT", "POST", "DELETE", "MKCOL", "MKCALENDAR", "PROPPATCH") and self.cfg.get("oracle4")
+        if check4:
+            pre_copy = os.path.join(self.arena.path, "pre4")
+            a0 = FS.active
+            FS.active = False
+            from ..world import rmtree_real
+
+            rmtree_real(pre_copy)
+            import shutil
+
+            shutil.copytree(self.arena.root, pre_copy, symlinks=True)
+            pre_state = self.work_state(self.arena.root)
+            FS.active = a0
         self.events = []
         self.recording = True
         try:
@@ -233,6 +248,82 @@ class PathRun:
         finally:
             FS.active = a
         self.digest.update(("%s %s %s %d\n" % (method, target, status, len(evs))).encode())
+        if check4:
+            self.oracle4(op, method, target, hdrs, body, status, pre_copy, pre_state)
+
+    def work_state(self, root):
+        """Logical contents of a data directory: every file outside .git with its bytes."""
+        a = FS.active
+        FS.active = False
+        try:
+            out = {}
+            for d, dirs, files in os.walk(root):
+                dirs[:] = sorted(x for x in dirs if x != ".git")
+                rel = os.path.relpath(d, root)
+                bare = all(os.path.exists(os.path.join(d, x)) for x in ("objects", "refs", "HEAD"))
+                if bare:
+                    dirs[:] = []
+                    out[rel + "/"] = "bare-repo"
+                    continue
+                out[rel + "/"] = "dir"
+                for f in sorted(files):
+                    with open(os.path.join(d, f), "rb") as fh:
+                        out[os.path.join(rel, f)] = hashlib.sha1(fh.read()).hexdigest()
+            return out
+        finally:
+            FS.active = a
+
+    def oracle4(self, op, method, target, hdrs, body, status, pre_copy, pre_state):
+        """A request whose path would leave the root is answered as if it addressed
+        the normalised path inside the root, or is refused (DESIGN.md 4/C13 (4))."""
+        import posixpath
+        import shutil
+
+        from ..world import World, rmtree_real
+
+        post_state = self.work_state(self.arena.root)
+        if post_state == pre_state:
+            return
+        self.count("oracle4_state_changing_requests")
+        pre = self.cfg["prefix"].rstrip("/")
+        raw_path = op["path"]
+        decoded = urllib.parse.unquote(raw_path)
+        norm = posixpath.normpath("/" + decoded)
+        if decoded.endswith("/") and not norm.endswith("/"):
+            norm += "/"
+        while norm.startswith("//"):
+            norm = norm[1:]
+        ntarget = pre + urllib.parse.quote(norm, safe="/")
+        # twin: a fresh server on a clone of the pre-state
+        a0 = FS.active
+        FS.active = False
+        twin_root = os.path.join(self.arena.path, "twin4")
+        rmtree_real(twin_root)
+        shutil.copytree(pre_copy, twin_root, symlinks=True)
+        keep = (FS.observers, FS.listing_rng)
+        main_srv = self.world.srv
+        # the twin must not (re-)create default collections the clone does not have
+        tw = World(self.arena, dict(self.cfg, autocreate=None))
+        tw.arena = type("A", (), {"root": twin_root, "path": self.arena.path, "tmp": self.arena.tmp, "rel": self.arena.rel})()
+        import asyncio
+
+        try:
+            FS.active = True
+            tw.boot()
+            tw.reseed(op.get("salt", 0))
+            self.world.reseed(op.get("salt", 0))
+            r2 = tw.req(method, target=ntarget, headers=hdrs, body=body)
+            tw.srv.stop()
+        finally:
+            FS.active = False
+            asyncio.set_event_loop(main_srv.loop)
+        twin_state = self.work_state(twin_root)
+        rmtree_real(twin_root)
+        FS.active = a0
+        if twin_state != post_state:
+            diff = sorted(set(post_state.items()) ^ set(twin_state.items()))[:4]
+            self.add("C13.effect-differs-from-normalised-target", "%s %s -> %s changed the data directory, but not like %s %s (-> %s) does: %s" % (
+                method, target, status, method, ntarget, r2.status if r2 else None, diff), {"frontend": self.cfg["frontend"], "method": method}, set())
 
     def judge(self, op, target, status, r, evs):
         if not op.get("benign"):
